@@ -14,7 +14,13 @@ _m(
     "a slice of the destination vector held from an earlier step (hold steps keep up to two such slices) or taken just before an "
     "add_fields / remove_fields of that vector (stale column count), written to the held index sets shifted cyclically, or a fresh "
     "Vector.from_data with k, k+1 or k-1 columns - matching column counts must store exactly the right-hand side's cells, "
-    "mismatching ones must raise ValueError and change nothing; field arithmetic v[f] op= scalar for + - * /; callable assignment; "
+    "mismatching ones must raise ValueError and change nothing; creation through from_data (and replacement of all cells through "
+    "the public `v.data = list` setter on 1-D vectors, incl. wrong length / column count -> ValueError) from a list object the "
+    "harness KEEPS, followed by mutations of that list (replace / insert / append / pop / clear) and by further vectors created "
+    "from the SAME list object refilled in place (same content or new content) - no live vector may change and no two may share "
+    "cells; in a third of the histories cells of DIFFERENT DTYPES (int64 / int32 / float32 / float64 cycling per cell, zero-row "
+    "integer cells first, nested lists of Python ints as in the docstring's from_data example) enter through from_data, the data "
+    "setter and cell / list assignment; field arithmetic v[f] op= scalar for + - * /; callable assignment; "
     "set_flattened / v[f] = values (ndarray or list) and the flatten -> set_flattened round trip; add_fields / remove_fields "
     "(str, list, tuple; existing, duplicate and missing names; all-but-one); copy (optionally preceded by a nested metadata write and "
     "followed by an in-place mutation on one side); creation of further independent Vectors; metadata writes and in-place "
@@ -51,6 +57,17 @@ _m(
         "(the documented aliasing of `v[a] = v[b]` is outside the domain).  The expected content of a HELD slice is what the slice "
         "itself returns through its public API immediately before the assignment (it is the input of the operation; a view's "
         "content after later in-place field arithmetic on its parent is not specified), its column count decides match / mismatch",
+        "cells of mixed dtypes are judged BY VALUE on the read side and the pure round trip only: v[f].flatten() and "
+        "Vector.flatten() equal the model's row-major concatenation (NumPy promotion of int64/int32/float32/float64 to float64 is "
+        "value-preserving for the generated values: half-integers in [-4, 4] in float cells, integers in [-8, 8] in integer cells) and "
+        "set_flattened(flatten()) restores every cell.  In-place field arithmetic and callable assignment cast the result back to each "
+        "cell's own dtype (integer cells truncate, float32 cells round) and are therefore NOT applied to a vector that ever received a "
+        "non-float64 cell (sticky flag, inherited by copies and by destinations of Vector-valued assignments; counted as skipped); "
+        "set_flattened on such vectors writes integer values only (exact in every cell dtype)",
+        "a Vector stores the arrays it is given by reference (documented aliasing): the harness never hands one ndarray object to "
+        "two vectors - a kept list reused for a second from_data / .data call gets fresh array objects (nested-list elements are "
+        "reused as they are) - and never mutates an array it handed over; only the caller's OUTER list is mutated",
+        "the `data` setter is only used on vectors with one fixed dimension (its validation is written for that case)",
         "every case clears the metadata of its vectors at the end (public API) so that a tree with process-wide shared metadata "
         "cannot leak state from one case into the next: reported cases are self-contained",
     ],
